@@ -364,3 +364,8 @@ def run(ctx):
                 okinit = True
     ctx.check(okinit, "C18.d", "HistogramCollection.__init__", "raises when members' binnings differ",
               "the constructor no longer refuses members with differing binnings", init.where)
+
+    # an invalid dtype change is refused as a whole: checks cover both arrays and precede every store (shared with C13.c)
+    ctx.rule("C18.e", "set_dtype validates frequencies and errors2 before it converts anything", 3)
+    from rules import c13
+    c13.check_set_dtype_checks(ctx, "C18.e", m)
